@@ -254,6 +254,7 @@ func c14Step(inv c14Inv, st clidrv.State, hist []c14Inv) (clidrv.State, bool, st
 		return st, false, "harness", "cannot run the gts binary: " + ref.Stderr
 	}
 	res, ns := clidrv.Run(c14Args(inv.Args), c14Inputs[inv.Stdin], st)
+	engine.Outcome(fmt.Sprintf("%d|%x", res.Exit, engine.Hash(string(res.Stdout)+string(res.OutFile))))
 	if !res.Same(ref) {
 		sig := "cached-output-differs"
 		switch {
